@@ -1276,7 +1276,11 @@ func digestRun(bin, prop string, n int, gmp string) string {
 	dir, _ := os.MkdirTemp("", "qsim-dg-")
 	defer os.RemoveAll(dir)
 	jf := filepath.Join(dir, "job.json")
-	b, _ := json.Marshal(job{Mode: "digest", Prop: prop, Tier: "quick", Seed: 7, From: 0, Runs: n})
+	from := 0
+	if v := os.Getenv("QSIM_SELFTEST_FROM"); v != "" {
+		from, _ = strconv.Atoi(v) // first run number (C11: blocks of 640 runs; block 7 = stalled server, block 4 = application close)
+	}
+	b, _ := json.Marshal(job{Mode: "digest", Prop: prop, Tier: "quick", Seed: 7, From: from, Runs: from + n})
 	os.WriteFile(jf, b, 0644)
 	cmd := exec.Command(bin, "-test.run", "^TestWorker$", "-test.timeout", "0")
 	cmd.Env = append(os.Environ(), "QSIM_JOB="+jf, "GOMAXPROCS="+gmp)
